@@ -441,6 +441,21 @@ fn exec_draw(op: &str, t: &mut Toks, ctx: &mut Ctx) -> String {
     ctx.expect(painted == want, "C19:tri-draw-ne-points-clipped", || {
         format!("{} painted {} want {}", op, pts_digest(&painted), pts_digest(&want))
     });
+    // the same box on a draw_iter-only target (trait defaults), and the reference once more by plain interval
+    // arithmetic (not `Rectangle::contains`)
+    let mut r1: R1<Rgb565> = R1::new(bbox);
+    styled.draw(&mut r1).expect("no fault");
+    let painted1: Vec<Point> = r1.rec.map.keys().map(|(y, x)| Point::new(*x, *y)).collect();
+    let all_map: PMap = all.iter().map(|p| ((p.y, p.x), 1u32)).collect();
+    let want1: Vec<Point> = restrict_map(&all_map, &bbox).keys().map(|(y, x)| Point::new(*x, *y)).collect();
+    ctx.expect(painted1 == want1 && want1 == want, "C19:tri-draw-ne-points-clipped", || {
+        format!("{} draw_iter-only target painted {} want {}", op, pts_digest(&painted1), pts_digest(&want1))
+    });
+    if bbox.size.width == 0 || bbox.size.height == 0 {
+        ctx.count("draw:empty-target-box");
+    } else if want.is_empty() && !all.is_empty() {
+        ctx.count("draw:target-box-disjoint-from-the-triangle");
+    }
     format!("m={}", pts_digest(&painted))
 }
 
@@ -517,6 +532,22 @@ impl Module for M {
                 let (bx, by) = (rng.range(-40, 30) as i32, rng.range(-40, 30) as i32);
                 let (bw, bh) = (rng.range(1, 50) as u32, rng.range(1, 50) as u32);
                 emit(format!("{} {} {} {} {} {}", op3("tri.draw", &v), i % 2, bx, by, bw, bh));
+            }
+            // degenerate target boxes: empty (0 x 0), flat (w x 0, 0 x h) inside the triangle's extent, and boxes disjoint
+            // from the triangle (far away on either side): nothing may be drawn
+            let degenerate: [(i32, i32, u32, u32); 6] = [(0, 0, 0, 0), (-2, -1, 9, 0), (1, -3, 0, 8), (1000, 777, 20, 20), (-1000, -777, 20, 20), (-20, 300, 64, 5)];
+            let mut n = 0u64;
+            grid_triples(g2, -5, -3, 3, 2, &mut |v| {
+                n += 1;
+                if n % 11 == 0 {
+                    let b = degenerate[(n as usize / 11) % degenerate.len()];
+                    emit(format!("{} {} {} {} {} {}", op3("tri.draw", &v), (n / 11) % 2, b.0, b.1, b.2, b.3));
+                }
+            });
+            for i in 0..(nd / 4) {
+                let v = random_triangle(rng);
+                let b = degenerate[i % degenerate.len()];
+                emit(format!("{} {} {} {} {} {}", op3("tri.draw", &v), (i / degenerate.len()) % 2, b.0, b.1, b.2, b.3));
             }
         }
         // random larger
